@@ -27,10 +27,18 @@ RULE = ("(a) cache discipline: every key sequence over <= 3 keys of length <= 6 
         "that are asked the same questions, T:s/T:e other spelling), every answer (canonical value + Python type) compared "
         "with a freshly built twin asked that single question under cold caches in a pristine forked process; "
         "operands snapshotted (to_dict, guid, hash, == fresh twin, str, qualifiers of all children) before/after. "
+        "A guaranteed share of the histories is on CDS / transcript / gene / collection recipes whose chunk window cuts the "
+        "(primary) CDS (3 cut sides x 2 spellings x 4 kinds); 60% of those read the flag-setting accessors "
+        "(num_chunk_relative_codons, chunk_relative_codon_locations) FIRST and then every chromosome-level / object-level "
+        "question (num_codons, chromosome_codon_locations, translate, extract_sequence, has_valid_stop, to_dict, guid, ...). "
         "non-trivial = a history with >= 20 calls of which >= 1 is memoised/lazy and that contains a cache filler, or a "
         "cache-discipline line in which an eviction happens; distinct = distinct lines")
-EXHAUSTIVE_NOTE = ("lru: all key sequences of length <= 6 over 3 keys x capacity 0..3; cdshist: all words of length <= 4 over "
-                   "{c,n,e,v} on 4 CDS layouts; merge: all own/other dictionaries over 2 keys x value subsets of {1,2}")
+EXHAUSTIVE_NOTE = ("lru: all key sequences of length 1..6 over 3 keys x capacity 0..3; cdshist: all words of length <= 4 (<= 3 on "
+                   "two of the chromosome layouts) over {c,n,e,v,N} (list codons, num_chunk_relative_codons, extract_sequence, "
+                   "has_valid_stop, num_codons) on 4 chromosome-parented CDS layouts and 6 layouts on a sequence chunk that CUTS "
+                   "the CDS (low / high / both sides, both strands, 1-3 exons); merge: all own/other dictionaries over 2 keys x "
+                   "value subsets of {1,2}; hist pair sweep: on chunk-cut CDS / transcript / gene recipes one accessor first, then "
+                   "every argument-less question")
 TRUSTED = ["Model/Cache.lean is hand-written; its LRU discipline is tied to CPython's functools.lru_cache, to methodtools and "
            "to the real Parent cache by this run's correspondence (hit/miss/eviction patterns)",
            "Gen.parentCacheSize regenerated from parent/parent.py",
